@@ -53,6 +53,7 @@ def run_client(pid, tier, rep, design_cfgs, asis, groups, nscen):
     vlib.build_harness()
     wd = rep.wd
     total, accepted, foreign = 0, 0, 0
+    foreign_keys = {}
     nontrivial = set()
     for g in groups:
         path = os.path.join(wd, "trace-%s.ndjson" % g)
@@ -75,13 +76,15 @@ def run_client(pid, tier, rep, design_cfgs, asis, groups, nscen):
                 rep.mismatch("%s:%s" % (g, key), detail)
             else:
                 foreign += 1
-                vlib.log("  note: scenario %s/%d rejected for a reason owned by %s (%s)" % (g, r["scenario"], own, key))
+                foreign_keys[(own, key)] = foreign_keys.get((own, key), 0) + 1
         for sc in scs:
             evs = [json.loads(x).get("ev") for x in sc]
             if any(e in ("Fault", "SubDrop", "SubUnsub", "SubEnd") for e in evs) or '"t":"array"' in "".join(sc) or '"t":"close"' in "".join(sc):
                 nontrivial.add("".join(sc[1:]))
         if scs:
             rep.cov["samples"].append({"group": g, "trace": [json.loads(x) for x in scs[min(3, len(scs) - 1)]][:60]})
+    for (own, key), n in sorted(foreign_keys.items()):
+        vlib.log("  note: %d scenarios rejected for a reason owned by %s (%s) - reported by that property's check" % (n, own, key))
     rep.cov["traces_validated_against_impl"] += total
     rep.cov["evaluations"] += total
     rep.cov["distinct_nontrivial"] += len(nontrivial)
